@@ -28,6 +28,7 @@ func init() {
 			{ID: "C01.R5", Text: "Checkpoint.Save dumps, per ranged key, Checkpoint.SeqNo ← offset.SeqNo of the tracked position map and hands exactly that map to Metadata.Save", Run: c01r5},
 			{ID: "C01.R6", Text: "Metadata.Save backends marshal the document they are given and derive the document id from the same vBucket id", Run: c01r6},
 			{ID: "C01.R8", Text: "the resume position is the stored one: Load builds each offset from the loaded document's own fields and never modifies a loaded document (same rule as C02.R2)", Run: c02r2},
+			{ID: "C01.R9", Text: "a missing checkpoint is concluded only from evidence (file: exactly os.ErrNotExist; Couchbase: after read and parse) — otherwise a read fault at restart would move every vBucket past unsettled events (same rule as C02.R7)", Run: c02r7},
 			{ID: "C01.R7", Text: "no store through a pointer to a field of models.Offset / models.SnapshotMarker outside the composite literal that allocates it", Run: immutableOffsets},
 		},
 	})
@@ -723,6 +724,18 @@ func immutableOffsets(c *Ctx, id string) {
 				return
 			}
 			scanned++
+			// a whole value of a protected type stored into a long-lived location (a struct field): the location is
+			// reused for the next event, so pointers handed out earlier change under their holders
+			if vt := protected(st.Val.Type()); vt != "" && !strings.HasPrefix(vt, "gocbcore.") {
+				if _, isPtr := st.Val.Type().Underlying().(*types.Pointer); !isPtr {
+					if fa2, isFA := st.Addr.(*ssa.FieldAddr); isFA {
+						if _, isAlloc := fa2.X.(*ssa.Alloc); !isAlloc {
+							f := structField(fa2.X.Type(), fa2.Field)
+							c.Fail(id, "reuse:"+vt+"@"+fname(fn), st.Pos(), "a %s value is stored into the long-lived field %s and overwritten per event — offsets already handed out change afterwards", vt, f.Name())
+						}
+					}
+				}
+			}
 			fa, ok := st.Addr.(*ssa.FieldAddr)
 			if !ok {
 				return
